@@ -152,7 +152,7 @@ func (s *sink) schedule(c Case, r *vh.Rng, thorough, verboseOut bool) {
 			return
 		}
 		if got.Verdict == ref.Verdict && !sameStmts(got.Stmts, ref.Stmts) && sameModuloOrder(got.Stmts, ref.Stmts) {
-			s.add(violation{Prop: "C15", Kind: "order-only", Format: c.Format, Sub: "statement-order",
+			s.add(violation{Prop: "C15", Kind: "order-only", Format: c.Format, Sub: orderSub(c.Format, c.Input),
 				Detail: fmt.Sprintf("same statements (modulo blank-node labels) in a different order under %s: %s", what, firstDiff(ref.Stmts, got.Stmts)), Case: cc})
 		} else if got.Verdict != ref.Verdict || !sameStmts(got.Stmts, ref.Stmts) {
 			s.add(violation{Prop: "C15", Kind: kind, Format: c.Format, Sub: what,
@@ -161,9 +161,21 @@ func (s *sink) schedule(c Case, r *vh.Rng, thorough, verboseOut bool) {
 			s.count("same-verdict-different-message:" + c.Format)
 		}
 	}
-	// determinism
-	again := execCase(base)
-	cmp("nondeterminism", "second-run", base, again)
+	// determinism: the same bytes, the same options, k decodes in all (k = 2; 4 quick / 8 thorough for
+	// documents with container maps, @nest or @reverse, whose members an implementation must sort to
+	// visit them in a defined order: Go's map iteration order differs from run to run)
+	k := 2
+	if mapHeavy(c.Format, c.Input) {
+		k = 4
+		if thorough {
+			k = 8
+		}
+	}
+	s.count(fmt.Sprintf("determinism-runs:k=%d", k))
+	for i := 1; i < k; i++ {
+		again := execCase(base)
+		cmp("nondeterminism", "second-run", base, again)
+	}
 	// chunking independence
 	for _, ch := range chunkings {
 		cc := c
@@ -275,6 +287,49 @@ func (e *engine) runSchedules() {
 					emit(Case{Format: f, Opts: e.randOpts(r, f), Input: w.B, Family: "witness", Name: w.Name})
 				}
 			}
+		}
+		// JSON-LD container maps (jsonldmaps.go): map-order in full for every carrier, container-maps
+		// thinned at the quick tier (every nullish entry value x key in the middle of a 12-entry map
+		// without coercion, one in 16 of the others; all of them in the C05 / C06 pass)
+		for _, d := range mapOrderDocs(12) {
+			for _, f := range []string{"jsonld", "htmljsonld", "html"} {
+				in := d.B
+				if f != "jsonld" {
+					in = []byte(wrapJSONLDInHTML(string(d.B)))
+				}
+				o := e.randOpts(r, f)
+				o.Mode, o.Lax = "", false
+				emit(Case{Format: f, Opts: o, Input: in, Family: "map-order", Name: d.Name})
+			}
+			repMu.Lock()
+			e.rep.Hist["map-order:site:"+strings.SplitN(d.Name, "/", 2)[0]]++
+			e.rep.Hist["map-order:construct:"+strings.SplitN(d.Name, "/", 2)[1]]++
+			repMu.Unlock()
+		}
+		for _, f := range []string{"rdfa", "html"} {
+			o := e.randOpts(r, f)
+			emit(Case{Format: f, Opts: o, Input: rdfaInlistOrderDoc(12), Family: "map-order", Name: "rdfa/inlist-predicates"})
+		}
+		for i, d := range containerMapDocs() {
+			if !e.thorough && !(strings.HasSuffix(d.Name, "/plain/pos2") && nullishEntry(d.Name)) && i%16 != 0 {
+				continue
+			}
+			fs := []string{"jsonld"}
+			if i%4 == 0 { // the HTML carriers add nothing to the schedule comparisons of the JSON text itself: one document in four
+				fs = []string{"jsonld", "htmljsonld", "html"}
+			}
+			for _, f := range fs {
+				in := d.B
+				if f != "jsonld" {
+					in = []byte(wrapJSONLDInHTML(string(d.B)))
+				}
+				o := e.randOpts(r, f)
+				o.Mode, o.Lax = "", false
+				emit(Case{Format: f, Opts: o, Input: in, Family: "container-maps", Name: d.Name})
+			}
+			repMu.Lock()
+			e.rep.Hist["container-maps:kind:"+strings.SplitN(d.Name, "/", 2)[0]]++
+			repMu.Unlock()
 		}
 		for _, f := range allFormats {
 			ss := e.seeds(f)
